@@ -34,7 +34,7 @@ TIERS = {
 SOLVER_ERRORS = (UnboundLocalError, IndexError, KeyError, TypeError, ValueError, ZeroDivisionError, OverflowError, AttributeError,
                  RecursionError, AssertionError, NameError)
 STEP_LIMIT = 6_000_000
-TOL = 1e-6
+TOL = 1e-5  # looser than the solver eps (1e-6): the property does not fix a tolerance
 
 
 # ------------------------------------------------------------------------------------------- generation
